@@ -202,6 +202,18 @@ amend('C03', note='soundness and the closed form of what each hide flag removes 
 amend('C19', note='hypothesis of the exactness theorem: no bound keyword is spelled like a star parameter or like a positional-only parameter the bound positionals do not consume (both conjuncts forced by refutations); '
       'shape clauses and permutation invariance of the bound keywords proved for all signatures.')
 
+amend('C05', 'Gallina model of Namespace/markers/CallListerVisitor/forward_signatures (Model/Visitor.v, Model/Discover.v), an execution semantics for two grammars of wrapper bodies (Model/Exec.v: the '
+      'wrapper\'s own scope; Model/ExecNested.v: nested functions / lambdas holding forwarding calls) and theorems in Props/C05.v: the walker\'s flags are a sound abstract interpretation of '
+      'execution (C05_flag_sound, C05_flags_sound_nested) and END TO END (C05_end_to_end): a call accepted by the discovered signature makes every executed forwarding site flagged `use` hand '
+      'its callee a call the callee\'s signature accepts, with the caller\'s untouched objects; models extracted / evaluated in Coq and compared with /repo on every generated program (tree, '
+      'walker output, discovered signature, real execution); every pristine-forwarding program of the wider forwarding grammar is really executed on every non-colliding call shape its reported '
+      'signature accepts; taint statements placed before the call must hide the callee parameters.',
+      note='PARTIAL: inside the two statement grammars soundness is proved end to end (no step left to testing; tied to CPython per run: compile = ast.parse tree, model flags = CallListerVisitor '
+      'flags, untouched objects really received); outside them (loops, try/with, comprehensions, callee routes other than a global name, mutation in nested scopes = known finding with refutation '
+      'C05_nested_refuted) soundness against execution is exploration. Known findings C05:bound-parameter-reaccepted, C05:role-inconsistent-merge, C05:hide-kwargs-named-pok, '
+      'C05:nested-scope-mutation listed in known_findings.json. ' + DISC_NOTE,
+      technique='Coq proof (walker model + execution semantics of a statement grammar, end-to-end theorem) + extracted/in-Coq correspondence + real execution of generated programs')
+
 
 def main():
     props = [json.loads(l)['id'] for l in open(os.path.join(VERIF, 'properties.jsonl'))]
